@@ -206,6 +206,7 @@ var (
 	c17rHoldNanos int64
 	c17rHeld      int64
 	c17rPing      int64
+	c17rLeaked    int64 // runs that left a receive loop behind after Disconnect
 )
 
 func c17rYield(point string, _ interface{}) {
@@ -261,25 +262,43 @@ func c17rOnce(closeHow string, delay time.Duration) (class, detail string) {
 	key := envLCG(256, 1717)
 	h := newC17rPeer(key, 2, closeHow, delay)
 	a := newC17rPeer(key, 0, "", 0)
-	defer h.stop()
-	defer a.stop()
+	var m *mtproto.MTProto
+	base := 0
+	defer func() {
+		if m != nil {
+			func() {
+				defer func() { _ = recover() }()
+				_ = m.Disconnect()
+			}()
+			// On a tree where Reconnects overlap a context may have been lost (m.stopRoutines overwritten): its reading
+			// routine and keepalive go on for ever. Taking the peers away from such a client makes its reading routine
+			// redial, fail and leave a nil transport, through which the keepalive panics a minute later - in the middle
+			// of some other operation. The peers of such a run are left standing instead.
+			for deadline := time.Now().Add(100 * time.Millisecond); c17rReaders() > base; time.Sleep(time.Millisecond) {
+				if time.Now().After(deadline) {
+					atomic.AddInt64(&c17rLeaked, 1)
+					return
+				}
+			}
+		}
+		h.stop()
+		a.stop()
+	}()
 	// clients of earlier operations / iterations have been disconnected: their receive loops end within moments
-	base := c17rReaders()
+	base = c17rReaders()
 	for deadline := time.Now().Add(300 * time.Millisecond); base != 0 && time.Now().Before(deadline); base = c17rReaders() {
 		time.Sleep(time.Millisecond)
 	}
-	m, err := mtproto.NewMTProto(mtproto.Config{SessionStorage: c17KeyedSession{key, h.addr()}, ServerHost: h.addr()})
+	mm, err := mtproto.NewMTProto(mtproto.Config{SessionStorage: c17KeyedSession{key, h.addr()}, ServerHost: h.addr()})
 	if err != nil {
 		return "setup", "NewMTProto"
 	}
+	m = mm
 	m.SetDCList(map[int]string{2: a.addr()})
 	if err := m.CreateConnection(); err != nil {
+		m = nil
 		return "setup", "CreateConnection"
 	}
-	defer func() {
-		defer func() { _ = recover() }()
-		_ = m.Disconnect()
-	}()
 	ping := 0x17c00000 + atomic.AddInt64(&c17rPing, 2)
 	res, returned := c17rCall(m, ping, 2*time.Second)
 	counts := func() string {
